@@ -215,8 +215,8 @@ func (p *Polynomial) Evaluate(x interface{}) (y *Complex) {
 		xcmplx[0].Mul(xcmplx[0], scalar)
 		xcmplx[1].Mul(xcmplx[1], scalar)
 
+		// the change of basis y = scalar * x + constant is real: the constant shifts the real part only
 		xcmplx[0].Add(xcmplx[0], constant)
-		xcmplx[1].Add(xcmplx[1], constant)
 
 		TPrev := &Complex{new(big.Float).SetInt64(1), new(big.Float)}
 
